@@ -123,11 +123,17 @@ CLAIMED = {
          "up to 12 significant digits in every accepted unit string, with several converters alive in one process; result type, magnitude (formula model and independent textbook formula with the 2019 SI "
          "constants, rtol 1e-12), units/dimensionality, linearity/affinity and element-wise behaviour are evaluated on the implementation.",
          "4 C17", "Lean 4 proof (formula algebra, small) + differential correspondence with pint"),
+ 'C18': ("Lean theorems about the Debyer model (Model/Debyer.lean: _chunk, the row-per-thread accumulation, gather, rescale, frame average), over the reals for EVERY number of chunks, sites, molecules, frames and every box: "
+         "chunk_rows_partition / chunk_rows_cover_once (the rows of _chunk(n, c) cover every index exactly once, also for c > n), chunk_refused_iff, gathered_eq, chunk_count_independent and debyer_chunk_count_independent "
+         "(the result does not depend on the number of chunks), cross_is_debye_sum (1/(N_a+N_b) sum over intramolecular pairs of Mathlib's Real.sinc(k r)), self_is_debye_sum (1 + 1/N sum over i != j; the loops visit i < j and double) and "
+         "self_is_full_double_sum (the i = j terms are the Kronecker delta), debyer_is_frame_average, cross/self_order_independent (any permutation of the sites), miComp_nearest_image (the folded separation is the distance to the NEAREST "
+         "periodic image for every separation and box) with the negation witness miCompShipped_not_nearest and miComp_eq_shipped for the repaired rule; and for ANY scalar type (also the Float the driver executes): schedule_row, "
+         "schedule_independent, stream_gives_chunkAcc, any_interleaving_gives_chunkAcc (every interleaving of the per-chunk update streams leaves the model's chunk sums in the shared table: thread count and timing cannot change what is gathered). "
+         "PARTIAL where the truth is in the runtime: float32 rounding is compared through an error bound computed from the terms, and the OpenMP runtime itself (a data race introduced by a code change) is outside any executable model; it is sampled with 1-8 "
+         "threads, repetitions and chunk counts on every run. The extension is built from /repo's current Debyer.pyx on every run (cython + gcc -fopenmp into a scratch directory); results are compared with the Lean model on the same float32-rounded inputs and with an independent float64 Debye sum.",
+         "4 C18", "Lean 4 proof (finite sums, partition of the index range, interleavings) + differential correspondence with the freshly built extension; partial for float32 rounding and the OpenMP runtime"),
 }
 NA = {
- 'C18': ("not applicable: the Cython extension pyPRISM/trajectory/Debyer.pyx cannot be built in this sandbox (the shipped Debyer.c was generated by Cython 0.28 and does not "
-         "compile against CPython 3.12 / numpy 2.5; re-cythonising fails on np.int_t and nogil tuple construction), so there is no executable implementation to tie a Lean "
-         "model to by correspondence, and OpenMP schedules are not something an executable Lean model exhibits (DESIGN.md section 4 C18)"),
 }
 def main():
     props = [json.loads(l) for l in open(os.path.join(HERE, 'properties.jsonl'))]
